@@ -51,6 +51,9 @@ GROUPS = [
     ["(2i)", "(-(0 - 2i))"],
     ["[(-1i)]", "[(0 - 1i)]"],
     ["(1.5+2i)", "((3/2)+2i)"],
+    # an integral RATIONAL beyond 2^53 that no float represents exactly, and the equal integer
+    ["(2^64+1)", "((2^64+1)/1)", "((2^65+2)/2)"],
+    ["[(2^64+1)]", "[((2^64+1)/1)]"],
 ]
 ALL_KEYS = [k for g in GROUPS for k in g]
 GROUP_OF = {k: gi for gi, g in enumerate(GROUPS) for k in g}
